@@ -123,7 +123,8 @@ def main(argv):
             drift.append(i)
             continue
         kid = mod.known(c, o) if hasattr(mod, 'known') else None
-        if kid and kid in known:
+        # a recorded defect: the faithful model reproduces the implementation (no Coq disagreement), only the spec fails
+        if kid and kid in known and i not in bad:
             known_seen.setdefault(kid, i)
             continue
         violations.append(i)
